@@ -425,7 +425,7 @@ func runProperty(eng *Engine, prop, tier string, timeout int, findings []Finding
 			retry = append(retry, j)
 		}
 	}
-	if len(retry) > 0 && len(retry) <= 40 {
+	if len(retry) > 0 && len(retry) <= 6 {
 		var again []*solveJob
 		for _, j := range retry {
 			again = append(again, &solveJob{name: j.name, text: j.text})
